@@ -17,7 +17,7 @@ The legal move set itself is C01; make_move is C03.
 import json
 import z3
 
-from mirsym.executor import State, NOT_HANDLED
+from mirsym.executor import State, NOT_HANDLED, PATHS
 from mirsym.values import *
 from mirsym.models import some, NONE, ok, err, StrV, as_str
 from mirsym import native, solve, models
@@ -146,58 +146,106 @@ class TermV:
         return TermV(self.t if self.t.eq(o.t) else z3.If(g, self.t, o.t))
 
 
+class FenStr:
+    """the fen string of a position command: an abstract string with an identity (equal ids <=> equal strings)"""
+    def __init__(self, fid):
+        self.fid = fid
+
+    def eq_model(self, ctx, other):
+        if isinstance(other, FenStr):
+            return self.fid == other.fid
+        raise Unsupported('fen string compared with %r' % (other,))
+
+    def ite_with(self, g, o):
+        return FenStr(z3.If(zb(g), self.fid, o.fid))
+
+    def is_empty_model(self, ctx):
+        return False
+
+
+class TermEnv:
+    """boards and moves as terms of uninterpreted sorts; the board-level callees as uninterpreted functions"""
+    def __init__(self, run):
+        self.BoardS = z3.DeclareSort('BoardS')
+        self.MoveS = z3.DeclareSort('MoveS')
+        self.start = z3.Const('start_board', self.BoardS)
+        self.fenb = z3.Function('from_fen', z3.BitVecSort(8), self.BoardS)
+        self.mk = z3.Function('make_move', self.BoardS, self.MoveS, self.BoardS)
+        self.fm = z3.Function('found_move', self.BoardS, z3.BitVecSort(8), z3.BitVecSort(U.NUMW), self.MoveS)
+        self.legal = z3.Function('names_a_legal_move', self.BoardS, z3.BitVecSort(8), z3.BitVecSort(U.NUMW), z3.BoolSort())
+        self.ncalls = 0
+        ex = self.ex = run.executor()
+        env = UL.Env(ex, [], False)
+        UL.install(ex, env)
+        ex.model(r'^board::boardbuilder::BoardBuilder::build$', lambda ctx, bp: TermV(self.start))
+
+        def from_fen(ctx, f):
+            f = as_str(ctx, f)
+            if not isinstance(f, FenStr):
+                raise Unsupported('from_fen of %r' % (f,))
+            return TermV(self.fenb(f.fid))
+        ex.model(r'^board::(serialize::<impl board::Board>|Board)::from_fen$', from_fen)
+        ex.model(r'^board::serialize::<impl at .*>::from_fen$', from_fen)
+
+        def find_move(ctx, bp, notation):
+            b = ctx.deref(bp)
+            w = as_str(ctx, notation)
+            self.ncalls += 1
+            k, n = self.canon(w)
+            a = self.legal(b.t, k, n)
+            return Enum(z3.If(a, z3.BitVecVal(0, 64), z3.BitVecVal(1, 64)), {0: (TermV(self.fm(b.t, k, n)),), 1: (StrV('Move not found'),)})
+        ex.model(r'^board::Board::find_move$', find_move)
+        ex.model(r'^board::<impl at .*>::find_move$', find_move)
+
+        def make_move(ctx, bp, mv):
+            b = ctx.deref(bp)
+            ctx.write(bp, TermV(self.mk(b.t, mv.t)))
+            return UNIT
+        ex.model(r'^board::Board::make_move$', make_move)
+        ex.model(r'^board::<impl at .*>::make_move$', make_move)
+        ex.model(r'^<board::Board as std::clone::Clone>::clone$', lambda ctx, p: ctx.deref(p))
+
+    @staticmethod
+    def canon(w):
+        """a word as (kind, number-if-numeric): equal canonical pairs <=> the harness treats the strings as equal"""
+        return bv(w.kind), z3.If(bv(w.kind) == U.NUM, bv(w.num), z3.BitVecVal(0, U.NUMW))
+
+    def play(self, base, words):
+        """(all words name legal moves in turn, resulting position)"""
+        b, okc = base, []
+        for w in words:
+            k, n = self.canon(w)
+            okc.append(self.legal(b, k, n))
+            b = self.mk(b, self.fm(b, k, n))
+        return (z3.And(*okc) if okc else z3.BoolVal(True)), b
+
+    def item(self, run, method):
+        return [n for n, it in run.prog.items.items() if it.kind == 'fn' and n.startswith('uci::<impl') and n.endswith('::' + method)][0]
+
+
 def load_case(run, job):
     kind, k = job
     name = 'LOAD/%s/%s' % (kind, 'no-moves-clause' if k < 0 else '%d-moves' % k)
-    BoardS = z3.DeclareSort('BoardS')
-    MoveS = z3.DeclareSort('MoveS')
-    start = z3.Const('start_board', BoardS)
-    session = z3.Const('session_board', BoardS)
-    fenb = z3.Function('from_fen', z3.BitVecSort(8), BoardS)
-    mk = z3.Function('make_move', BoardS, MoveS, BoardS)
-    fm = z3.Function('found_move', BoardS, z3.BitVecSort(8), z3.BitVecSort(U.NUMW), MoveS)
-    ex = run.executor()
-    env = UL.Env(ex, [], False)
-    UL.install(ex, env)
-    accepts = []
-    ex.model(r'^board::boardbuilder::BoardBuilder::build$', lambda ctx, bp: TermV(start))
-    fen_tok = z3.BitVec('fen_id', 8)
-    ex.model(r'^board::(serialize::<impl board::Board>|Board)::from_fen$', lambda ctx, f: TermV(fenb(fen_tok)))
-
-    def find_move(ctx, bp, notation):
-        b = ctx.deref(bp)
-        w = as_str(ctx, notation)
-        i = len(accepts)
-        a = z3.Bool('accept_%d' % i)
-        accepts.append((a, ctx.st.guard, w))
-        return Enum(z3.If(a, z3.BitVecVal(0, 64), z3.BitVecVal(1, 64)), {0: (TermV(fm(b.t, bv(w.kind), bv(w.num))),), 1: (StrV('Move not found'),)})
-    ex.model(r'^board::Board::find_move$', find_move)
-
-    def make_move(ctx, bp, mv):
-        b = ctx.deref(bp)
-        ctx.write(bp, TermV(mk(b.t, mv.t)))
-        return UNIT
-    ex.model(r'^board::Board::make_move$', make_move)
+    T = TermEnv(run)
+    ex = T.ex
+    session = z3.Const('session_board', T.BoardS)
+    fen_id = z3.BitVec('fen_id', 8)
     words = [U.TokV.fresh('mv%d' % i) for i in range(max(k, 0))]
     st = State()
-    up = ex.alloc(st, (TermV(session), NONE, NONE))
-    pk = Enum(0, {0: ()}) if kind == 'startpos' else Enum(1, {1: (U.AbsStr(False, 'fen'),)})
+    # the session object: built by the real Uci::new(), then its position replaced by an arbitrary one
+    uv = ex.call(T.item(run, 'new'), [], [], 'uci::Uci', st, 'harness')[0]
+    bi = run.prog.field_index('uci::Uci', 'board')
+    uv = tuple(TermV(session) if i == bi else x for i, x in enumerate(uv))
+    up = ex.alloc(st, uv)
+    pk = Enum(0, {0: ()}) if kind == 'startpos' else Enum(1, {1: (FenStr(fen_id),)})
     moves = NONE if k < 0 else some(Seq.of(words))
-    callee = [n for n, it in run.prog.items.items() if it.kind == 'fn' and n.startswith('uci::<impl') and n.endswith('::load_position')][0]
-    r = ex.call(callee, [up, pk, moves], ['&mut uci::Uci', 'uci::uci_command::PositionKind', 'std::option::Option<std::vec::Vec<std::string::String>>'],
+    r = ex.call(T.item(run, 'load_position'), [up, pk, moves], ['&mut uci::Uci', 'uci::uci_command::PositionKind', 'std::option::Option<std::vec::Vec<std::string::String>>'],
                 'std::result::Result<(), std::string::String>', st, 'harness')
     run.absorb(ex)
     res, st2 = r
-    U_ = ex.load(st2, up.root, ())
-    final = U_[0].t
-    base = start if kind == 'startpos' else fenb(fen_tok)
-    exp = base
-    allacc = z3.BoolVal(True)
-    for w in words:
-        exp = mk(exp, fm(exp, bv(w.kind), bv(w.num)))
-    if len(accepts) > max(k, 0):
-        run.violation('%s: find_move is asked %d times for %d moves' % (name, len(accepts), k), {})
-    allacc = z3.And(*[a for a, _, _ in accepts]) if accepts else z3.BoolVal(True)
+    final = ex.load(st2, up.root, ())[bi].t
+    base = T.start if kind == 'startpos' else T.fenb(fen_id)
+    allacc, exp = T.play(base, words)
     bad = [z3.And(allacc, z3.Or(bv(res.d) != 0, final != exp)), z3.And(z3.Not(allacc), z3.Or(bv(res.d) != 1, final != session))]
     q = run.decide(name, ex.pre + [zb(st2.guard), z3.Or(*bad)], kind='smt',
                    note='all moves accepted => Ok and position == start.m1...mk (independent of the session position); any refusal => Err and position unchanged')
@@ -205,6 +253,63 @@ def load_case(run, job):
         run.violation('%s: load_position does not implement "all moves or nothing"' % name, {'case': name, 'model': str(q.model)[:800]})
     for ob, qq in run.check_obligations(ex, name):
         run.violation('%s: load_position can panic: %s' % (name, ob), {'case': name})
+
+
+def session_case(run, seq):
+    """a session from Uci::new(): a sequence of position / ucinewgame commands (bounded history); the position in force at
+    the end is the one described by the last accepted position command (or the start position after ucinewgame / at the
+    beginning), whatever was sent before"""
+    name = 'SESSION/' + '-'.join('N' if c == 'N' else 'P%d' % c for c in seq)
+    T = TermEnv(run)
+    ex = T.ex
+    st = State()
+    uv = ex.call(T.item(run, 'new'), [], [], 'uci::Uci', st, 'harness')[0]
+    up = ex.alloc(st, uv)
+    bi = run.prog.field_index('uci::Uci', 'board')
+    exp = T.start
+    execute = T.item(run, 'execute_command')
+    ex.no_merge(r'(^|::)(execute_command|load_position)$')      # path by path: list lengths stay concrete
+    ex.enable_pruning(timeout_ms=2000)
+    ex.prune_mode = 'all'
+    nq = [0]
+
+    def go(j, st, exp):
+        if j == len(seq):
+            final = ex.load(st, up.root, ())[bi]
+            if not isinstance(final, TermV):
+                run.inconclusive.append('%s: session position is not a board term: %r' % (name, final))
+                return
+            nq[0] += 1
+            q = run.decide('%s/path%d' % (name, nq[0]), ex.pre + [zb(st.guard), final.t != exp], kind='smt',
+                           note='position in force == the one described by the last accepted position command / ucinewgame, independent of earlier commands')
+            if q.verdict == 'sat':
+                run.violation('%s: the session position depends on earlier commands' % name, {'case': name, 'model': str(q.model)[:1200]})
+            return
+        c = seq[j]
+        if c == 'N':
+            cmd = Enum(2, {2: ()})
+            exp_next = T.start
+        else:
+            is_fen = z3.Bool('c%d_is_fen' % j)
+            fid = z3.BitVec('c%d_fen_id' % j, 8)
+            words = [U.TokV.fresh('c%d_mv%d' % (j, i)) for i in range(c)]
+            has_moves = z3.Bool('c%d_has_moves_clause' % j) if c == 0 else True
+            pk = Enum(z3.If(is_fen, z3.BitVecVal(1, 64), z3.BitVecVal(0, 64)), {0: (), 1: (FenStr(fid),)})
+            mv = Enum(z3.If(zb(has_moves), z3.BitVecVal(1, 64), z3.BitVecVal(0, 64)), {1: (Seq.of(words),), 0: ()})
+            cmd = Enum(4, {4: (pk, mv)})
+            okc, b = T.play(z3.If(is_fen, T.fenb(fid), T.start), words)
+            exp_next = z3.If(okc, b, exp)
+        r = ex.call(execute, [up, cmd], ['&mut uci::Uci', 'uci::uci_command::UCICommand'], 'std::result::Result<(), std::string::String>', st, 'harness')
+        if r is None:
+            return
+        paths = r[1] if r[0] is PATHS else [r]
+        for _, st2 in paths:
+            if st2 is not None and ex.feasible(st2.guard):
+                go(j + 1, st2, exp_next)
+    go(0, st, T.start)
+    run.absorb(ex)
+    for ob, qq in run.check_obligations(ex, name):
+        run.violation('%s: panic: %s' % (name, ob), {'case': name})
 
 
 def newgame_case(run):
@@ -277,6 +382,8 @@ def worker(run, job):
         parse_case(run, job[1])
     elif kind == 'LOAD':
         load_case(run, job[1:])
+    elif kind == 'SESSION':
+        session_case(run, job[1])
     elif kind == 'NEWGAME':
         newgame_case(run)
     elif kind == 'FIND':
@@ -302,7 +409,13 @@ def check(run, replay=None):
     N = 12 if run.tier == 'quick' else 16
     K = 4 if run.tier == 'quick' else 8
     jobs = [('PARSE', n) for n in range(1, N + 1)] + [('LOAD', 'startpos', k) for k in range(-1, K + 1)] + [('LOAD', 'fen', k) for k in range(-1, K + 1)]
+    import itertools
+    H = 3
+    alphabet = ['N', 0, 1, 2]
+    for h in range(1, H + 1):
+        jobs += [('SESSION', seq) for seq in itertools.product(alphabet, repeat=h) if seq[-1] != 'N' or h == 1]
     jobs += [('NEWGAME',), ('FIND',), ('NOTATION',)]
+    run.bounds.append('sessions of <= %d position/ucinewgame commands from Uci::new(), <= 2 moves each' % H)
     run.bounds.append('position lines of <= %d tokens; <= %d moves in load_position; find_move over 4 candidate legal moves' % (N, K))
     run.outside += ['stdin/stdout framing', 'the legal move set (C01) and make_move (C03) themselves', 'FEN parsing (C07)']
     run.stubs |= {'abstract tokens', 'boards and moves as uninterpreted terms in load_position', 'format!/Display/String byte-level model for to_notation'}
